@@ -199,12 +199,14 @@ def check_iter(acc, pendulum, z, f, span, sign, mode):
 def starts_for(z, seed, thorough):
     out = []
     if z == "date":
-        for y, m in ((2023, 1), (2024, 1), (2024, 2), (2023, 12), (2100, 2), (2000, 8)):
+        for y, m in ((2023, 1), (2024, 1), (2024, 2), (2023, 12), (2100, 2), (2000, 8), (1999, 12), (2000, 1), (1900, 1),
+                     (2099, 12)):
             for d in (28, 29, 30, 31, 1):
                 if d <= calref.days_in_month(y, m):
                     out.append((y, m, d, 0, 0, 0, 0))
         return out
-    for y, m, d in ((2023, 1, 31), (2024, 1, 31), (2024, 2, 29), (2023, 12, 31), (2023, 10, 30), (2021, 5, 29)):
+    for y, m, d in ((2023, 1, 31), (2024, 1, 31), (2024, 2, 29), (2023, 12, 31), (2023, 10, 30), (2021, 5, 29),
+                    (1999, 12, 31), (2000, 1, 30), (2000, 2, 29), (1900, 1, 31), (2099, 11, 30)):    # century Februaries
         out.append((y, m, d, 8, 30, 15, 500000))
     if z is not None and not isinstance(z, int):
         trs = seeds.pick_transitions(seeds.zone_transitions(z), 8 if thorough else 3, seed)
@@ -260,7 +262,10 @@ def plan(tier, seed):
         st = starts_for(z, seed, thorough)
         for ch in seeds.chunks(st, 4 if thorough else 2):
             shards.append({"z": z, "starts": ch, "thorough": thorough})
-    return [({"ext": 1, "tz": "sys"}, shards)]
+    # the same exploration on the pure-Python helpers (is_leap / days_in_year / precise_diff twins) for the zones
+    # whose reference does not depend on the tz database
+    py = [sh for sh in shards if sh["z"] in ("UTC", "date", None)]
+    return [({"ext": 1, "tz": "sys"}, shards), ({"ext": 0, "tz": "sys"}, py if thorough else py[::2] + py[1::4])]
 
 
 def evidence(m, tier, seed):
